@@ -91,6 +91,59 @@ const HOSTILE_FOOTERS: [&str; 64] = [
     "CET-1CEST,J1/-167,J365/167", "CET+1+1+1",
 ];
 
+/// Decimal strings around every power of ten and of two up to beyond 2^64, and around the values at which a
+/// product with 60 / 3600 / 86400 / 604800 crosses 2^31, 2^32, 2^63, 2^64 (a number that fits its integer type
+/// but whose conversion to seconds does not is the shape a "parse, then multiply" reader gets wrong).
+fn number_ladder() -> Vec<String> {
+    let mut v: Vec<u128> = vec![];
+    let mut p10: u128 = 1;
+    for _ in 1..=22 {
+        p10 *= 10;
+        v.extend_from_slice(&[p10 - 1, p10, p10 + 1]);
+    }
+    for k in 7..=66u32 {
+        let p2: u128 = 1 << k;
+        v.extend_from_slice(&[p2 - 1, p2, p2 + 1]);
+    }
+    for b in [1u128 << 31, 1 << 32, 1 << 63, 1 << 64, 1 << 15, 1 << 16] {
+        for d in [60u128, 3_600, 86_400, 604_800, 24, 7, 12, 365] {
+            v.extend_from_slice(&[(b / d).saturating_sub(1), b / d, b / d + 1]);
+        }
+    }
+    v.sort();
+    v.dedup();
+    let mut out: Vec<String> = v.iter().map(|x| x.to_string()).collect();
+    out.push("0000000000000000000000000000000001".into());
+    out.push("00000000000000000000000000000000000000000000000000000000000000000".into());
+    out
+}
+
+const LADDER_TEMPLATES: [&str; 6] = [
+    "AAA-1:2:3BBB-2:3:4,M3.5.0/1:2:3,M10.5.0/-1:2:3",
+    "AAA1BBB,J60/2,J300/2",
+    "AAA1BBB,59/2,300/2",
+    "AAA5",
+    "<+03>-3:30<+04>-4:30,M3.2.0,M11.1.0",
+    "AAA+1:2:3BBB,M3.5.0,M10.5.0",
+];
+
+fn digit_runs(bytes: &[u8]) -> Vec<(usize, usize)> {
+    let mut v = vec![];
+    let mut i = 0;
+    while i < bytes.len() {
+        if bytes[i].is_ascii_digit() {
+            let s = i;
+            while i < bytes.len() && bytes[i].is_ascii_digit() {
+                i += 1;
+            }
+            v.push((s, i));
+        } else {
+            i += 1;
+        }
+    }
+    v
+}
+
 fn mutate_footer(rng: &mut Rng) -> Vec<u8> {
     match rng.below(6) {
         0 | 1 => rng.pick(&HOSTILE_FOOTERS).as_bytes().to_vec(),
@@ -99,27 +152,19 @@ fn mutate_footer(rng: &mut Rng) -> Vec<u8> {
             let v3 = rng.chance(1, 2);
             let (text, _) = gen_footer(rng, v3);
             let bytes = text.into_bytes();
-            let digit_runs: Vec<(usize, usize)> = {
-                let mut v = vec![];
-                let mut i = 0;
-                while i < bytes.len() {
-                    if bytes[i].is_ascii_digit() {
-                        let s = i;
-                        while i < bytes.len() && bytes[i].is_ascii_digit() {
-                            i += 1;
-                        }
-                        v.push((s, i));
-                    } else {
-                        i += 1;
-                    }
-                }
-                v
-            };
+            let digit_runs = digit_runs(&bytes);
             if digit_runs.is_empty() {
                 return bytes;
             }
             let (s, e) = *rng.pick(&digit_runs);
-            let repl: &str = *rng.pick(&["0", "00", "6", "7", "13", "24", "25", "59", "60", "99", "167", "168", "255", "256", "365", "366", "367", "999999999999", "4294967296", "18446744073709551616", ""]);
+            let ladder_pick;
+            let repl: &str = if rng.chance(1, 3) {
+                let l = number_ladder();
+                ladder_pick = rng.pick(&l).clone();
+                &ladder_pick
+            } else {
+                *rng.pick(&["0", "00", "6", "7", "13", "24", "25", "59", "60", "99", "167", "168", "255", "256", "365", "366", "367", "999999999999", "4294967296", "18446744073709551616", ""])
+            };
             let mut out = bytes[..s].to_vec();
             out.extend_from_slice(repl.as_bytes());
             out.extend_from_slice(&bytes[e..]);
@@ -338,6 +383,17 @@ pub fn run(ctx: &Ctx) -> PropResult {
     let _ = std::fs::create_dir_all(&out_dir);
     let od = &out_dir;
     let pid = std::process::id();
+    // every numeric slot of six footer shapes x a ladder of magnitudes, under version 2 and 3 (enumerated)
+    let ladder = number_ladder();
+    let mut ladder_cases: Vec<(usize, usize, usize)> = vec![];
+    for (ti, t) in LADDER_TEMPLATES.iter().enumerate() {
+        for si in 0..digit_runs(t.as_bytes()).len() {
+            for li in 0..ladder.len() {
+                ladder_cases.push((ti, si, li));
+            }
+        }
+    }
+    let (ladr, lcr) = (&ladder, &ladder_cases);
     let mut wls = vec![];
     wls.push(Workload::cases("structural_mutations_enumerated", total, move |rec, idx, rng| {
         let bi = or.partition_point(|o| *o <= idx) - 1;
@@ -382,6 +438,24 @@ pub fn run(ctx: &Ctx) -> PropResult {
         bytes.extend_from_slice(f.as_bytes());
         bytes.push(b'\n');
         outcome_of(rec, rng, &bytes, &format!("empty table + footer {:?}", f), "footer-on-empty-table", None);
+    }));
+    wls.push(Workload::cases("footer_number_ladder_enumerated", ladder_cases.len() as u64 * 2, move |rec, idx, rng| {
+        let (ti, si, li) = lcr[(idx / 2) as usize];
+        let t = LADDER_TEMPLATES[ti].as_bytes();
+        let (s, e) = digit_runs(t)[si];
+        let mut footer = t[..s].to_vec();
+        footer.extend_from_slice(ladr[li].as_bytes());
+        footer.extend_from_slice(&t[e..]);
+        let v = if idx % 2 == 0 { b'3' } else { b'2' };
+        let mut header = b"TZif".to_vec();
+        header.push(v);
+        header.extend_from_slice(&[0u8; 15 + 24]);
+        let mut bytes = [header.clone(), header].concat();
+        bytes.push(b'\n');
+        bytes.extend_from_slice(&footer);
+        bytes.push(b'\n');
+        rec.bin("footer-ladder/numeric-slot-x-magnitude");
+        outcome_of(rec, rng, &bytes, &format!("empty table + footer {:?}", String::from_utf8_lossy(&footer)), "footer-number-ladder", None);
     }));
     wls.push(Workload::cases("random_damage", ctx.count(60_000, 4_000_000), move |rec, idx, rng| {
         let bi = rng.below(br.len() as u64) as usize;
@@ -436,11 +510,11 @@ pub fn run(ctx: &Ctx) -> PropResult {
     }
     let mut meta = PropMeta::default();
     meta.rule = format!(
-        "{} base files (vendored IANA files, fat and slim, and synthetic v1/v2/v3 files). ENUMERATED per base: every header count of both headers x {{0, 1, exact±1, 2^16, 2^32−1}}, the version byte x {{0,'1','2','3','4',0xFF}}, every transition's type index x {{typecnt−1, typecnt, 255}}, every truncation point ({} mutated files). Footers: {} hand-written hostile POSIX-TZ strings (month 0/13/99/256, week 0/6/9/256, day 7/9/255, J0, J366, 365/366, 12-digit numbers in every numeric slot, missing parts, unterminated <, NUL, ':' forms, offsets 24/25/167/168 h) and grammar-aware mutations (one numeric slot replaced, byte damage incl. non-UTF-8, colliding / year-boundary rules), with and without the enclosing newlines, under version 2 and 3; random byte damage; degenerate inputs. Every parsed result is looked up at the DateTime range ends, 0, ±2^31, Feb 28–Mar 1 / Dec 31 / Jan 1 of eight years and 40 random timestamps; 1/50 of the files additionally as /etc/localtime through Offset::Local.resolve(). Outcome classes {{error, accepted, panic}} — only a panic (or a hang, caught by the watchdog) is a violation. Non-trivial = every mutated file; distinct by hash of the bytes.",
+        "{} base files (vendored IANA files, fat and slim, and synthetic v1/v2/v3 files). ENUMERATED per base: every header count of both headers x {{0, 1, exact±1, 2^16, 2^32−1}}, the version byte x {{0,'1','2','3','4',0xFF}}, every transition's type index x {{typecnt−1, typecnt, 255}}, every truncation point ({} mutated files). Footers: {} hand-written hostile POSIX-TZ strings (month 0/13/99/256, week 0/6/9/256, day 7/9/255, J0, J366, 365/366, 12-digit numbers in every numeric slot, missing parts, unterminated <, NUL, ':' forms, offsets 24/25/167/168 h) and grammar-aware mutations (one numeric slot replaced, byte damage incl. non-UTF-8, colliding / year-boundary rules), with and without the enclosing newlines, under version 2 and 3; ENUMERATED magnitude ladder: every numeric slot of six footer shapes x every value 10^k±1 (k ≤ 22), 2^k±1 (k ≤ 66) and ⌊2^31|2^32|2^63|2^64 / 60|3600|86400|604800⌋±1 (numbers that fit their integer type but not after conversion to seconds); random byte damage; degenerate inputs. Every parsed result is looked up at the DateTime range ends, 0, ±2^31, Feb 28–Mar 1 / Dec 31 / Jan 1 of eight years and 40 random timestamps; 1/50 of the files additionally as /etc/localtime through Offset::Local.resolve(). Outcome classes {{error, accepted, panic}} — only a panic (or a hang, caught by the watchdog) is a violation. Non-trivial = every mutated file; distinct by hash of the bytes.",
         bases.len(), total, HOSTILE_FOOTERS.len()
     );
     meta.required_bins = vec![
-        "mutation/header-count", "mutation/version-byte", "mutation/type-index", "mutation/truncation", "mutation/footer", "mutation/footer-on-empty-table", "mutation/random-bytes", "mutation/degenerate",
+        "mutation/header-count", "mutation/version-byte", "mutation/type-index", "mutation/truncation", "mutation/footer", "mutation/footer-on-empty-table", "mutation/footer-number-ladder", "mutation/random-bytes", "mutation/degenerate",
         "end-to-end/Offset::Local-on-damaged-file",
     ];
     meta.assumptions = vec!["which error is returned, and whether a malformed-but-harmless file is accepted, are not judged".into()];
